@@ -787,6 +787,7 @@ func runC18(r *Run) {
 	}
 	c18AfterCreation(r)
 	c18TagNames(r)
+	c18UnknownSubstitution(r)
 	c18TextBudgetRunTogether(r)
 	// the hook's replacement value is what the operators see
 	for _, t := range []struct {
@@ -892,6 +893,7 @@ func runC13(r *Run) {
 	c13ExpressionText(r)
 	c13TiedKeyOrders(r)
 	c13JSONNumbers(r)
+	c13BadPatternsTwice(r)
 	c17FirstError(r)
 	sameTypeDifferentShape(r, "history-dependent")
 	// filters
@@ -985,10 +987,31 @@ func runC12(r *Run) {
 	data = append(data, map[string]interface{}{"A": 1.0, "B": "aaa", "LI": []interface{}{1.0, uint8(1), 1}}, map[string]interface{}{"A": uint8(1), "LI": []interface{}{uint64(1), 1.5}}, map[string]interface{}{"A": "1", "LI": []interface{}{"1", int8(1)}},
 		map[string]interface{}{"A": float32(1), "LI": []interface{}{float32(1), 1.0}}, map[string]interface{}{"A": json.Number("1"), "LI": []interface{}{json.Number("1"), true}})
 	exprs = append(exprs, "A != 1", "1 not in LI", "any LI as x { x == 1 }")
+	// a document decoded with UseNumber (numbers inside lists), shared by all goroutines like every other datum
+	{
+		var jd interface{}
+		dec := json.NewDecoder(strings.NewReader(`{"A":1,"B":"aaa","LI":[1,443,12345678901234567890,"a",[2]],"ports":[80,443.5],"name":"web"}`))
+		dec.UseNumber()
+		if err := dec.Decode(&jd); err == nil {
+			data = append(data, jd)
+		}
+	}
+	exprs = append(exprs, `443 in ports and name == "web"`, "80 in ports", "ports contains 443.5")
 	// body selectors of three to seven parts that begin with the bound name (path slices with spare capacity behind them)
 	data = append(data, map[string]interface{}{"items": []interface{}{map[string]interface{}{"A": map[string]interface{}{"B": 0}}, map[string]interface{}{"A": map[string]interface{}{"B": 1, "C": map[string]interface{}{"D": map[string]interface{}{"E": 1}}}}}},
 		map[string]interface{}{"items": []interface{}{map[string]interface{}{"A": map[string]interface{}{"B": 2}}}})
 	exprs = append(exprs, "any items as x { x.A.B == 1 }", "all items as _, x { x.A.B != 7 }", "any items as x { x.A.C.D.E == 1 }", "any items as i, x { x.A.B == 1 and i != 9 }", `any items as x { x["A"]["B"] == 1 }`)
+	dataBefore := make([]string, len(data))
+	for i, d := range data {
+		dataBefore[i] = sIface(d)
+	}
+	defer func() {
+		for i, d := range data {
+			if sIface(d) != dataBefore[i] {
+				r.Violate("datum-modified", fmt.Sprintf("shared-datum|%d", i), map[string]interface{}{"datum_before": truncate(dataBefore[i], 300)}, "a datum shared by the goroutines is no longer what it was: "+truncate(describe(d), 300))
+			}
+		}
+	}()
 	for _, e := range exprs {
 		for _, os_ := range optsets {
 			fmt.Fprintf(os.Stderr, "CASE %s [%s]\n", e, os_.name)
